@@ -148,6 +148,10 @@ def prepare_common():
     har_hash = vlib.file_hash(os.path.join(harness_dir, "vharness.hpp"), os.path.join(harness_dir, "vmain.cpp"))
     vmain_dir = os.path.join(vlib.BUILD, "corpus", "vmain-" + vlib.sha(inc_hash, har_hash, vlib.CXX))
     vmain_o = os.path.join(vmain_dir, "vmain.o")
+    try:
+        os.utime(vmain_dir)
+    except OSError:
+        pass
     if not os.path.exists(vmain_o):
         os.makedirs(vmain_dir, exist_ok=True)
         rc, out = vlib.sh([vlib.CXX, "-std=c++17", "-O0", "-DTAO_PEGTL_VERIF=1", "-I" + os.path.join(vlib.REPO, "include"), "-I" + harness_dir,
